@@ -111,36 +111,47 @@ structure Reader (K B V : Type) where
 
 def Reader.init (k : K) (b : B) : Reader K B V := ⟨k, b, .cache⟩
 
-def Reader.step (sc : SC K B V) (r : Reader K B V) : SC K B V × Reader K B V :=
+/-- effect of one reader step on the shared state -/
+def Reader.stepSC (sc : SC K B V) (r : Reader K B V) : SC K B V :=
+  match r.pc with
+  | .cache => sc                                                     -- `sc.cache.Get(key)` (outer recency not modelled)
+  | .link cur _ => { sc with links := (sc.links.get cur).1 }         -- `sc.hashCache.Get(curHash)` refreshes the link
+  | .entry cur _ _ =>
+    match alookup sc.cache r.key with
+    | none => sc                                                     -- unreachable: version maps are never removed
+    | some m => { sc with cache := aset sc.cache r.key (m.get cur).1 }   -- `bvs.Get(curHash)` refreshes the entry
+  | .memo e =>
+    match alookup sc.cache r.key with
+    | none => sc
+    | some m =>
+      { sc with cache := aset sc.cache r.key (m.containsOrAdd r.blk e).1,
+                evictions := sc.evictions + (m.containsOrAdd r.blk e).2.toNat }
+  | .done _ => sc
+
+/-- program counter and locals after one reader step -/
+def Reader.stepPc (sc : SC K B V) (r : Reader K B V) : RPc B V :=
   match r.pc with
   | .cache =>
     match alookup sc.cache r.key with
-    | none => (sc, { r with pc := .done none })                    -- "key not found"
-    | some _ => (sc, { r with pc := .link r.blk 0 })
-  | .link cur n =>
-    let (l', p) := sc.links.get cur
-    ({ sc with links := l' }, { r with pc := .entry cur n p })
+    | none => .done none                                             -- "key not found"
+    | some _ => .link r.blk 0
+  | .link cur n => .entry cur n (sc.links.get cur).2
   | .entry cur n linked =>
     match alookup sc.cache r.key with
-    | none => (sc, { r with pc := .done none })                    -- unreachable: version maps are never removed
+    | none => .done none
     | some m =>
-      let (m', e) := m.get cur
-      let sc' := { sc with cache := aset sc.cache r.key m' }
-      match e with
-      | some e => if cur = r.blk then (sc', { r with pc := .done e.result }) else (sc', { r with pc := .memo e })
+      match (m.get cur).2 with
+      | some e => if cur = r.blk then .done e.result else .memo e
       | none =>
         match linked with
-        | none => (sc', { r with pc := .done none })               -- "see gap"
-        | some p =>
-          if n + 1 > sc.maxDepth then (sc', { r with pc := .done none })   -- "reach max depth"
-          else (sc', { r with pc := .link p (n + 1) })
-  | .memo e =>
-    match alookup sc.cache r.key with
-    | none => (sc, { r with pc := .done e.result })
-    | some m =>
-      let (m', ev) := m.containsOrAdd r.blk e
-      ({ sc with cache := aset sc.cache r.key m', evictions := sc.evictions + ev.toNat }, { r with pc := .done e.result })
-  | .done _ => (sc, r)
+        | none => .done none                                         -- "see gap"
+        | some p => if n + 1 > sc.maxDepth then .done none           -- "reach max depth"
+                    else .link p (n + 1)
+  | .memo e => .done e.result
+  | .done v => .done v
+
+def Reader.step (sc : SC K B V) (r : Reader K B V) : SC K B V × Reader K B V :=
+  (r.stepSC sc, { r with pc := r.stepPc sc })
 
 def Reader.run : Nat → SC K B V → Reader K B V → SC K B V × Reader K B V
   | 0, sc, r => (sc, r)
@@ -180,40 +191,43 @@ def CPc.next (todo : List (K × Entry V)) : CPc K B V :=
   | [] => .publish
   | _ => .keyGet todo
 
-/-- one step of `commit`; `start` is handled by the scheduler (lock acquisition) -/
-def Committer.step (sc : SC K B V) (c : Committer K B V) : SC K B V × Committer K B V :=
+/-- effect of one committer step on the shared state -/
+def Committer.stepSC (sc : SC K B V) (c : Committer K B V) : SC K B V :=
   match c.pc with
-  | .start => (sc, { c with pc := .linkcheck })
-  | .linkcheck =>
-    let (l', r) := sc.links.get c.hash
-    match r with
-    | some _ => ({ sc with links := l' }, { c with pc := .done false })     -- "block already committed"
-    | none => ({ sc with links := l' }, { c with pc := CPc.next c.writes })
-  | .keyGet [] => (sc, { c with pc := .publish })
-  | .keyGet ((k, e) :: todo) =>
+  | .linkcheck => { sc with links := (sc.links.get c.hash).1 }
+  | .keyAdd true ((_, e) :: _) =>                                    -- `lru.New(200)` then `bvs.Add` on the private map
+    { sc with evictions := sc.evictions + ((LRU.empty sc.capK : LRU B (Entry V)).add c.hash e).2.toNat }
+  | .keyAdd false ((k, e) :: _) =>
     match alookup sc.cache k with
-    | some _ => (sc, { c with pc := .keyAdd false ((k, e) :: todo) })
-    | none => (sc, { c with pc := .keyAdd true ((k, e) :: todo) })            -- `lru.New(200)`
-  | .keyAdd _ [] => (sc, { c with pc := .publish })
-  | .keyAdd fresh ((k, e) :: todo) =>
-    if fresh then
-      ((sc, { c with pc := .keyPut (some ((LRU.empty sc.capK).add c.hash e).1) ((k, e) :: todo) }))
-    else
-      match alookup sc.cache k with
-      | some m =>
-        let (m', ev) := m.add c.hash e
-        ({ sc with cache := aset sc.cache k m', evictions := sc.evictions + ev.toNat },
-         { c with pc := .keyPut none ((k, e) :: todo) })
-      | none => (sc, { c with pc := .keyPut none ((k, e) :: todo) })          -- unreachable
-  | .keyPut _ [] => (sc, { c with pc := .publish })
-  | .keyPut fr ((k, _) :: todo) =>
-    match fr with
-    | some m => ({ sc with cache := aset sc.cache k m }, { c with pc := CPc.next todo })
-    | none => (sc, { c with pc := CPc.next todo })                            -- re-Add of the same pointer
-  | .publish =>
-    let (l', ev) := sc.links.add c.hash c.prev
-    ({ sc with links := l', evictions := sc.evictions + ev.toNat }, { c with pc := .done true })
-  | .done _ => (sc, c)
+    | some m => { sc with cache := aset sc.cache k (m.add c.hash e).1,
+                          evictions := sc.evictions + (m.add c.hash e).2.toNat }
+    | none => sc                                                     -- unreachable
+  | .keyPut (some m) ((k, _) :: _) => { sc with cache := aset sc.cache k m }
+  | .publish => { sc with links := (sc.links.add c.hash c.prev).1,
+                          evictions := sc.evictions + (sc.links.add c.hash c.prev).2.toNat }
+  | _ => sc
+
+/-- program counter and locals after one committer step; `start` (lock acquisition) is enabled by the scheduler -/
+def Committer.stepPc (sc : SC K B V) (c : Committer K B V) : CPc K B V :=
+  match c.pc with
+  | .start => .linkcheck
+  | .linkcheck =>
+    match (sc.links.get c.hash).2 with
+    | some _ => .done false                                          -- "block already committed"
+    | none => CPc.next c.writes
+  | .keyGet [] => .publish
+  | .keyGet ((k, e) :: todo) => .keyAdd (alookup sc.cache k).isNone ((k, e) :: todo)
+  | .keyAdd _ [] => .publish
+  | .keyAdd true ((k, e) :: todo) =>
+    .keyPut (some ((LRU.empty sc.capK : LRU B (Entry V)).add c.hash e).1) ((k, e) :: todo)
+  | .keyAdd false todo => .keyPut none todo
+  | .keyPut _ [] => .publish
+  | .keyPut _ (_ :: todo) => CPc.next todo
+  | .publish => .done true
+  | .done b => .done b
+
+def Committer.step (sc : SC K B V) (c : Committer K B V) : SC K B V × Committer K B V :=
+  (c.stepSC sc, { c with pc := c.stepPc sc })
 
 def Committer.run : Nat → SC K B V → Committer K B V → SC K B V × Committer K B V
   | 0, sc, c => (sc, c)
